@@ -175,6 +175,11 @@ func main() {
 			_ = os.WriteFile(filepath.Join(*reqdir, mt.name+".dir"), []byte(strings.Join(dirs, "\n")), 0o644)
 		}
 	}
+	if *reqdir != "" {
+		if err := syntheticRequests(*reqdir); err != nil {
+			fatal(err)
+		}
+	}
 	total := 0
 	for _, t := range targets {
 		params := t.params
@@ -226,4 +231,60 @@ func main() {
 func fatal(err error) {
 	fmt.Fprintln(os.Stderr, "regen:", err)
 	os.Exit(2)
+}
+
+// syntheticRequests writes requests for a small hand-built schema pair that the example schemas lack: a
+// file that imports a message from another Go package whose package name differs from the tail of its
+// import path, where only the importing file is in file_to_generate. For the compile by-product check a
+// second request (<name>.goreq) lets protoc-gen-go emit the message types of both files.
+func syntheticRequests(reqdir string) error {
+	str := func(s string) *string { return &s }
+	i32 := func(i int32) *int32 { return &i }
+	lbl := func(l descriptorpb.FieldDescriptorProto_Label) *descriptorpb.FieldDescriptorProto_Label { return &l }
+	typ := func(t descriptorpb.FieldDescriptorProto_Type) *descriptorpb.FieldDescriptorProto_Type { return &t }
+	opt, rep := descriptorpb.FieldDescriptorProto_LABEL_OPTIONAL, descriptorpb.FieldDescriptorProto_LABEL_REPEATED
+	common := &descriptorpb.FileDescriptorProto{
+		Name: str("common/v1/common.proto"), Package: str("verif.common.v1"), Syntax: str("proto3"),
+		Options: &descriptorpb.FileOptions{GoPackage: str("example.com/verif/common/v1;commonv1")},
+		MessageType: []*descriptorpb.DescriptorProto{{
+			Name: str("Shared"),
+			Field: []*descriptorpb.FieldDescriptorProto{
+				{Name: str("id"), JsonName: str("id"), Number: i32(1), Label: lbl(opt), Type: typ(descriptorpb.FieldDescriptorProto_TYPE_STRING)},
+				{Name: str("weight"), JsonName: str("weight"), Number: i32(2), Label: lbl(opt), Type: typ(descriptorpb.FieldDescriptorProto_TYPE_DOUBLE)},
+			},
+		}},
+		EnumType: []*descriptorpb.EnumDescriptorProto{{
+			Name:  str("Level"),
+			Value: []*descriptorpb.EnumValueDescriptorProto{{Name: str("LEVEL_UNSPECIFIED"), Number: i32(0)}, {Name: str("LEVEL_HIGH"), Number: i32(1)}},
+		}},
+	}
+	app := &descriptorpb.FileDescriptorProto{
+		Name: str("app/app.proto"), Package: str("verif.app"), Syntax: str("proto3"), Dependency: []string{"common/v1/common.proto"},
+		Options: &descriptorpb.FileOptions{GoPackage: str("example.com/verif/app;app")},
+		MessageType: []*descriptorpb.DescriptorProto{{
+			Name: str("Order"),
+			Field: []*descriptorpb.FieldDescriptorProto{
+				{Name: str("name"), JsonName: str("name"), Number: i32(1), Label: lbl(opt), Type: typ(descriptorpb.FieldDescriptorProto_TYPE_STRING)},
+				{Name: str("owner"), JsonName: str("owner"), Number: i32(2), Label: lbl(opt), Type: typ(descriptorpb.FieldDescriptorProto_TYPE_MESSAGE), TypeName: str(".verif.common.v1.Shared")},
+				{Name: str("watchers"), JsonName: str("watchers"), Number: i32(3), Label: lbl(rep), Type: typ(descriptorpb.FieldDescriptorProto_TYPE_MESSAGE), TypeName: str(".verif.common.v1.Shared")},
+				{Name: str("level"), JsonName: str("level"), Number: i32(4), Label: lbl(opt), Type: typ(descriptorpb.FieldDescriptorProto_TYPE_ENUM), TypeName: str(".verif.common.v1.Level")},
+				{Name: str("primary"), JsonName: str("primary"), Number: i32(5), Label: lbl(opt), Type: typ(descriptorpb.FieldDescriptorProto_TYPE_MESSAGE), TypeName: str(".verif.common.v1.Shared"), OneofIndex: i32(0)},
+				{Name: str("note"), JsonName: str("note"), Number: i32(6), Label: lbl(opt), Type: typ(descriptorpb.FieldDescriptorProto_TYPE_STRING), OneofIndex: i32(0)},
+			},
+			OneofDecl: []*descriptorpb.OneofDescriptorProto{{Name: str("contact")}},
+		}},
+	}
+	ver := &pluginpb.Version{Major: proto.Int32(3), Minor: proto.Int32(21), Patch: proto.Int32(12)}
+	fm := &pluginpb.CodeGeneratorRequest{FileToGenerate: []string{"app/app.proto"}, Parameter: str("apiversion=v2,paths=source_relative"), ProtoFile: []*descriptorpb.FileDescriptorProto{common, app}, CompilerVersion: ver}
+	gen := &pluginpb.CodeGeneratorRequest{FileToGenerate: []string{"common/v1/common.proto", "app/app.proto"}, Parameter: str("paths=source_relative"), ProtoFile: []*descriptorpb.FileDescriptorProto{common, app}, CompilerVersion: ver}
+	for name, r := range map[string]*pluginpb.CodeGeneratorRequest{"synthetic-imports.req": fm, "synthetic-imports.goreq": gen} {
+		raw, err := proto.MarshalOptions{Deterministic: true}.Marshal(r)
+		if err != nil {
+			return err
+		}
+		if err := os.WriteFile(filepath.Join(reqdir, name), raw, 0o644); err != nil {
+			return err
+		}
+	}
+	return os.WriteFile(filepath.Join(reqdir, "synthetic-imports.dir"), []byte("app/app.proto=app"), 0o644)
 }
